@@ -234,7 +234,7 @@ func readLinesFile(p string) []string {
 	return out
 }
 
-var c20Schemes = []string{"udp", "tcp", "tcp+pipeline", "tls", "tls+pipeline", "http", "https", "quic"}
+var c20Schemes = []string{"udp", "udp-notcp", "tcp", "tcp+pipeline", "tls", "tls+pipeline", "http", "https", "quic"}
 
 // child: vharness child c20tr <seed> <exchanges per scheme> <dir>
 func c20TransportChild(args []string) int {
@@ -260,6 +260,9 @@ func c20TransportChild(args []string) int {
 				if err == nil {
 					addr = "udp://" + s.Addr["udp"]
 				}
+			case "udp-notcp": // nothing listens on the TCP side: the retry of a truncated reply is refused
+				err = s.ListenUDP("127.0.0.1:0")
+				addr = "udp://" + s.Addr["udp"]
 			case "tcp", "tcp+pipeline":
 				err = s.ListenTCP("127.0.0.1:0")
 				addr = scheme + "://" + s.Addr["tcp"]
@@ -297,7 +300,7 @@ func c20TransportChild(args []string) int {
 					for i := 0; i < n/workers; i++ {
 						name := fmt.Sprintf("ok-n%d-d%d-u%dx%d.x.test.", r.Range(1, 8), r.Intn(4), w, i)
 						if r.P(0.1) {
-							name = "tc-" + name // udp: forces the TCP fallback
+							name = "tc-" + name[3:] // udp: forces the TCP fallback
 						} else if r.P(0.15) {
 							// the server closes the connection after this reply: the next exchange that
 							// picks it from the pool fails on a reused connection and is retried
